@@ -113,6 +113,10 @@ pub fn run(prop: &str, tier: &str, seed: u64, hints: Option<&str>) {
     match prop {
         "C17" => c17(&mut rng, thorough, &hints, &mut rep),
         "C01" => c01(&mut rng, thorough, &hints, &mut rep),
+        "C02" => c02(&mut rng, thorough, &hints, &mut rep),
+        "C19" => c19(&mut rng, thorough, &hints, &mut rep),
+        "C14" => c14(&mut rng, thorough, &hints, &mut rep),
+        "C15" => c15(&mut rng, thorough, &hints, &mut rep),
         "C12" => c12(&mut rng, thorough, &hints, &mut rep),
         "C13" => c13(&mut rng, thorough, &hints, &mut rep),
         "C05" => c05(&mut rng, thorough, &hints, &mut rep),
@@ -1656,4 +1660,510 @@ fn c04(rng: &mut Rng, thorough: bool, hints: &[Vec<String>], rep: &mut Report) {
         rep.count("windup-float-pairs", 1);
     }
     rep.sample("integrating Biquad<i32> (a1 = -ONE) saturating on max for L = 2 vs L = 2 + l".into());
+}
+
+// ------------------------------------------------------------------ C02
+const LSB: f64 = std::f64::consts::PI / 2147483648.0;
+
+fn wrap32(d: i64) -> i64 {
+    ((d + (1 << 31)).rem_euclid(1 << 32)) - (1 << 31)
+}
+
+fn c02_point(y: i32, x: i32, l: &mut Local) {
+    let inp = format!("atan2({}, {})", y, x);
+    let Some(r) = guard(|| atan2(y, x)) else {
+        l.violation("atan2-panic", "no input makes it panic or overflow", inp, "a value".into(), "PANIC".into());
+        return;
+    };
+    l.count += 1;
+    if x == 0 && y == 0 {
+        if r != 0 {
+            l.violation("atan2-zero", "atan2(0, 0) is 0", inp, "0".into(), r.to_string());
+        }
+        return;
+    }
+    // accuracy
+    let want = (y as f64).atan2(x as f64);
+    let mut err = (r as f64 * LSB - want).abs();
+    if err > std::f64::consts::PI {
+        err = 2.0 * std::f64::consts::PI - err;
+    }
+    let tol = (1.5e-5f64).max(1.0 / (x as f64).abs().max((y as f64).abs()));
+    l.max("atan2_err_over_tol", err / tol);
+    if err > tol {
+        l.violation("atan2-accuracy", "within max(1.5e-5, 1/max(|x|,|y|)) rad", inp.clone(), format!("{} rad", want), format!("{} ({} rad)", r, r as f64 * LSB));
+    }
+    // quadrant (to within 1 LSB at the axes)
+    let neg_ok = if y < 0 { r <= 0 } else { r >= -1 };
+    let neg_ok = neg_ok && (y == 0 || x == 0 || ((r < 0) == (y < 0)));
+    let mag = (r as i64).abs();
+    let quarter_ok = if x >= 0 { mag <= (1 << 30) + 1 } else { mag >= (1 << 30) - 1 };
+    let quarter_ok = quarter_ok && (x == 0 || y == 0 || ((mag <= (1 << 30)) == (x >= 0)));
+    if !neg_ok || !quarter_ok {
+        l.violation("atan2-quadrant", "negative exactly when y < 0; |r| <= quarter turn exactly when x >= 0", inp.clone(), "correct quadrant".into(), r.to_string());
+    }
+    // reflections (skip MIN operands: -MIN saturates)
+    if y != i32::MIN && x != i32::MIN {
+        let on_line = |cond: bool| if cond { "atan2-mirror-line" } else { "atan2-reflect" };
+        if let Some(rx) = guard(|| atan2(-y, x)) {
+            if wrap32(rx as i64 + r as i64).abs() > 1 {
+                l.violation(on_line(y == 0), "reflection about the x axis reflects the result to within 1 LSB", format!("atan2({}, {}) vs atan2({}, {})", y, x, -y, x), format!("{}", -(r as i64)), rx.to_string());
+            }
+        }
+        if let Some(ry) = guard(|| atan2(y, -x)) {
+            if wrap32(ry as i64 + r as i64 - (1 << 31)).abs() > 1 {
+                l.violation(on_line(x == 0), "reflection about the y axis reflects the result to within 1 LSB", format!("atan2({}, {}) vs atan2({}, {})", y, x, y, -x), format!("{}", wrap32((1i64 << 31) - r as i64)), ry.to_string());
+            }
+        }
+        if let Some(rd) = guard(|| atan2(x, y)) {
+            if wrap32(rd as i64 + r as i64 - (1 << 30)).abs() > 1 {
+                l.violation(on_line((x as i64).abs() == (y as i64).abs()), "reflection about the diagonal reflects the result to within 1 LSB", format!("atan2({}, {}) vs atan2({}, {})", y, x, x, y), format!("{}", wrap32((1i64 << 30) - r as i64)), rd.to_string());
+            }
+        }
+    }
+}
+
+fn c02(rng: &mut Rng, thorough: bool, hints: &[Vec<String>], rep: &mut Report) {
+    // complete small square (incl. the repaired (3,3) class) and random/lattice pairs
+    let side: i64 = if thorough { 1 << 11 } else { 1 << 8 };
+    par((2 * side + 1) as u64, |c, l| {
+        let y = c as i64 - side;
+        for x in -side..=side {
+            c02_point(y as i32, x as i32, l);
+        }
+    }, rep);
+    rep.distinct += ((2 * side + 1) * (2 * side + 1)) as u64;
+    rep.count("complete-small-square", 0);
+    let n: u64 = if thorough { 1 << 26 } else { 1 << 21 };
+    let seed = rng.next();
+    par(256, |c, l| {
+        let mut r = Rng::new(seed ^ (c << 20));
+        for _ in 0..(n / 256) {
+            let (y, x) = crate::gen::atan2_pair(&mut r);
+            c02_point(y, x, l);
+        }
+    }, rep);
+    rep.distinct += n;
+    rep.count("lattice/near-axis/near-diagonal/power-of-two/random pairs", 0);
+    // first-octant triangle, complete, in thorough
+    if thorough {
+        par(1 << 14, |c, l| {
+            let x = c as i32 + 1;
+            for y in 0..=x {
+                c02_point(y, x, l);
+            }
+        }, rep);
+        rep.count("first-octant-triangle-to-2^14-complete", 0);
+    }
+    let mut l = Local::default();
+    for (y, x) in [(3, 3), (-3, 3), (3, -3), (-3, -3), (5, 5), (i32::MIN, i32::MIN), (i32::MIN, 0), (0, i32::MIN), (i32::MAX, i32::MAX), (i32::MIN, i32::MAX), (1, i32::MAX), (i32::MAX, 1)] {
+        c02_point(y, x, &mut l);
+    }
+    for h in hints {
+        if (h[0] == "atan2" || h[0] == "arg") && h.len() == 3 {
+            if let (Ok(a), Ok(b)) = (h[1].parse::<i64>(), h[2].parse::<i64>()) {
+                if h[0] == "atan2" { c02_point(a as i32, b as i32, &mut l) } else { c02_point(b as i32, a as i32, &mut l) }
+            }
+        }
+        if h[0] == "divi" && h.len() == 3 {
+            if let (Ok(a), Ok(b)) = (h[1].parse::<i64>(), h[2].parse::<i64>()) {
+                c02_point(a as i32, b as i32, &mut l);
+                c02_point(b as i32, a as i32, &mut l);
+            }
+        }
+    }
+    for (a, b, c, d, e) in l.viol {
+        rep.violation(&a, &b, &c, &d, &e);
+    }
+    rep.evaluations += l.count;
+    rep.sample(format!("atan2(3, 3) = {:?}, atan2(0, 2) = {:?}", guard(|| atan2(3, 3)), guard(|| atan2(0, 2))));
+}
+
+// ------------------------------------------------------------------ C19
+fn c19_point(p: i32, l: &mut Local) {
+    let Some((z, back, a2, lg)) = guard(|| {
+        let z = Complex::<i32>::from_angle(p);
+        (z, z.arg(), z.abs_sqr(), z.log2())
+    }) else {
+        l.violation("polar-panic", "no panic", format!("from_angle({}) / arg / abs_sqr / log2", p), "values".into(), "PANIC".into());
+        return;
+    };
+    l.count += 1;
+    let d = wrap32(back as i64 - p as i64).abs();
+    l.max("polar_roundtrip_lsb", d as f64);
+    if d > 15038 {
+        l.violation("polar-roundtrip", "arg(from_angle(p)) = p to within 15038 LSB (mod 2^32)", format!("p = {}", p), p.to_string(), back.to_string());
+    }
+    let rel = 1.0 - a2 as f64 / 2147483648.0;
+    l.max("polar_abs_sqr_deficit", rel);
+    if !(a2 < (1u32 << 31) && rel <= 5e-5) {
+        l.violation("polar-abs-sqr", "squared magnitude below 2^31 by a relative 5e-5 at most", format!("from_angle({}) = {:?}", p, z), "in [2^31(1-5e-5), 2^31)".into(), a2.to_string());
+    }
+    if lg != -2 {
+        l.violation("polar-log2", "reported log2 is -2", format!("from_angle({}) = {:?}", p, z), "-2".into(), lg.to_string());
+    }
+}
+
+fn c19(rng: &mut Rng, thorough: bool, hints: &[Vec<String>], rep: &mut Report) {
+    let salt = rng.next();
+    if thorough {
+        par(1 << 12, |c, l| {
+            for i in 0..(1u64 << 20) {
+                c19_point(((c << 20) | i) as u32 as i32, l);
+            }
+        }, rep);
+        rep.distinct += 1u64 << 32;
+        rep.count("all-2^32-phases(exhaustive)", 0);
+    } else {
+        par(1 << 8, |c, l| {
+            for i in 0..(1u64 << 16) {
+                let blk = (c << 16) | i;
+                let low = (blk.wrapping_mul(0x9E3779B97F4A7C15).wrapping_add(salt) >> 40) & 0xff;
+                c19_point(((blk << 8) | low) as u32 as i32, l);
+            }
+        }, rep);
+        rep.distinct += 1u64 << 24;
+        rep.count("2^24-stratified-phases", 0);
+    }
+    let mut l = Local::default();
+    for v in [0, 1, -1, i32::MIN, i32::MAX, 1 << 29, (1 << 29) - 1, 1 << 30, -(1 << 30), (1 << 31 - 1) - 1] {
+        c19_point(v, &mut l);
+    }
+    for h in hints {
+        if h[0] == "cossin" && h.len() == 2 {
+            if let Ok(p) = h[1].parse::<i64>() {
+                c19_point(p as i32, &mut l);
+            }
+        }
+    }
+    for (a, b, c, d, e) in l.viol {
+        rep.violation(&a, &b, &c, &d, &e);
+    }
+    rep.sample(format!("arg(from_angle(12345678)) = {}", Complex::<i32>::from_angle(12345678).arg()));
+}
+
+// ------------------------------------------------------------------ C14 / C15 (half-band filters)
+use idsp::hbf::{Filter as HF, HbfDec, HbfDecCascade, HbfInt, HbfIntCascade, HBF_TAPS, HBF_TAPS_98};
+
+fn bits32(v: &[f32]) -> Vec<u32> {
+    v.iter().map(|x| x.to_bits()).collect()
+}
+
+/// run a filter over `x` cut into `blocks` (input lengths), in place or not; returns concatenated output or None on panic
+fn run_blocks<F: HF<Item = f32>>(f: &mut F, x: &[f32], blocks: &[usize], inplace: bool, up: usize, down: usize) -> Option<Vec<f32>> {
+    let mut out = vec![];
+    let mut pos = 0;
+    for &b in blocks {
+        let xin = &x[pos..pos + b];
+        pos += b;
+        let olen = b * up / down;
+        let r = guard(|| {
+            if inplace {
+                let mut y = vec![0f32; b.max(olen)];
+                y[..b].copy_from_slice(xin);
+                f.process_block(None, &mut y[..b.max(olen)]).to_vec()
+            } else {
+                let mut y = vec![0f32; olen];
+                f.process_block(Some(xin), &mut y).to_vec()
+            }
+        })?;
+        if r.len() != olen {
+            return None;
+        }
+        out.extend_from_slice(&r);
+    }
+    Some(out)
+}
+
+macro_rules! c14_stage {
+    ($rng:expr, $rep:expr, $taps:expr, $m:expr, $extra:expr) => {{
+        let rng: &mut Rng = $rng;
+        let rep: &mut Report = $rep;
+        const M: usize = $m;
+        const N: usize = 2 * M - 1 + $extra;
+        let taps: &[f32; M] = $taps;
+        for dec in [true, false] {
+            let (g, mx) = if dec { HbfDec::<f32, M, N>::new(taps).block_size() } else { HbfInt::<f32, M, N>::new(taps).block_size() };
+            let unit = if dec { g } else { g / 2 };
+            let maxin = if dec { mx } else { mx / 2 };
+            let total = unit * rng.below(4 * (maxin / unit) as u64 + 2) as usize;
+            let x = crate::gen::f32_stream(rng, total);
+            let p1 = crate::gen::partition(rng, total, unit, maxin);
+            let p2 = crate::gen::partition(rng, total, unit, maxin);
+            let (ip1, ip2) = (rng.chance(1, 2), rng.chance(1, 2));
+            let (o1, o2) = if dec {
+                (run_blocks(&mut HbfDec::<f32, M, N>::new(taps), &x, &p1, ip1, 1, 2), run_blocks(&mut HbfDec::<f32, M, N>::new(taps), &x, &p2, ip2, 1, 2))
+            } else {
+                (run_blocks(&mut HbfInt::<f32, M, N>::new(taps), &x, &p1, ip1, 2, 1), run_blocks(&mut HbfInt::<f32, M, N>::new(taps), &x, &p2, ip2, 2, 1))
+            };
+            let inp = format!("{}<f32, {}, {}> stream of {} items, blocks {:?} (in-place {}) vs {:?} (in-place {})", if dec { "HbfDec" } else { "HbfInt" }, M, N, total, &p1[..p1.len().min(12)], ip1, &p2[..p2.len().min(12)], ip2);
+            match (o1, o2) {
+                (Some(a), Some(b)) => {
+                    let want_len = if dec { total / 2 } else { total * 2 };
+                    if a.len() != want_len || bits32(&a) != bits32(&b) {
+                        let k = a.iter().zip(b.iter()).position(|(u, v)| u.to_bits() != v.to_bits());
+                        rep.violation("hbf-partition", "bit-identical for every admissible partition and in-place/separate", &inp, &format!("len {}", want_len), &format!("lens {} {} first diff at {:?}", a.len(), b.len(), k));
+                    }
+                }
+                _ => rep.violation("hbf-panic", "no admissible block makes it panic; returned length = in/2 or in*2", &inp, "outputs", "PANIC or wrong length"),
+            }
+            rep.count("hbf-stage-partition-pairs", 1);
+            rep.distinct += 1;
+        }
+    }};
+}
+
+fn c14(rng: &mut Rng, thorough: bool, _hints: &[Vec<String>], rep: &mut Report) {
+    let n = if thorough { 4000 } else { 300 };
+    for _ in 0..n {
+        match rng.below(10) {
+            0 => c14_stage!(rng, rep, &HBF_TAPS.0, 23, 32),
+            1 => c14_stage!(rng, rep, &HBF_TAPS.1, 9, 16),
+            2 => c14_stage!(rng, rep, &HBF_TAPS.2, 5, 8),
+            3 => c14_stage!(rng, rep, &HBF_TAPS.3, 4, 3),
+            4 => c14_stage!(rng, rep, &HBF_TAPS.4, 3, 1),
+            5 => c14_stage!(rng, rep, &HBF_TAPS_98.0, 15, 20),
+            6 => c14_stage!(rng, rep, &HBF_TAPS_98.1, 6, 5),
+            7 => c14_stage!(rng, rep, &HBF_TAPS_98.2, 3, 2),
+            8 => c14_stage!(rng, rep, &HBF_TAPS_98.4, 2, 7),
+            _ => c14_stage!(rng, rep, &HBF_TAPS_98.3, 3, 64),
+        }
+    }
+    // cascades (in place only), depths 0..=4
+    let m = if thorough { 1500 } else { 150 };
+    for _ in 0..m {
+        let depth = rng.below(5) as usize;
+        for dec in [true, false] {
+            let mut a = HbfDecCascade::default();
+            a.set_depth(depth);
+            let mut b = HbfIntCascade::default();
+            b.set_depth(depth);
+            let (g, mx) = if dec { a.block_size() } else { b.block_size() };
+            let mx = mx.min(1 << 12);
+            let (unit, maxin) = if dec { (g, mx) } else { (1, mx / g) };
+            let total = unit * rng.below(3 * (maxin / unit) as u64 + 2) as usize;
+            let x = crate::gen::f32_stream(rng, total);
+            let p1 = crate::gen::partition(rng, total, unit, maxin);
+            let p2 = crate::gen::partition(rng, total, unit, maxin);
+            let (o1, o2) = if dec {
+                let mut a2 = HbfDecCascade::default();
+                a2.set_depth(depth);
+                (run_blocks(&mut a, &x, &p1, true, 1, 1 << depth), run_blocks(&mut a2, &x, &p2, true, 1, 1 << depth))
+            } else {
+                let mut b2 = HbfIntCascade::default();
+                b2.set_depth(depth);
+                (run_blocks(&mut b, &x, &p1, true, 1 << depth, 1), run_blocks(&mut b2, &x, &p2, true, 1 << depth, 1))
+            };
+            let inp = format!("{} depth {} stream of {} items, blocks {:?} vs {:?}", if dec { "HbfDecCascade" } else { "HbfIntCascade" }, depth, total, &p1[..p1.len().min(12)], &p2[..p2.len().min(12)]);
+            match (o1, o2) {
+                (Some(u), Some(v)) => {
+                    let want_len = if dec { total >> depth } else { total << depth };
+                    if u.len() != want_len || bits32(&u) != bits32(&v) {
+                        rep.violation("hbf-partition", "cascade output bit-identical for every admissible partition", &inp, &format!("len {}", want_len), &format!("lens {} {}", u.len(), v.len()));
+                    }
+                }
+                _ => rep.violation("hbf-panic", "no admissible block makes it panic; returned length = in >> depth or in << depth", &inp, "outputs", "PANIC or wrong length"),
+            }
+            rep.count("hbf-cascade-partition-pairs", 1);
+            rep.distinct += 1;
+        }
+    }
+    rep.sample("HbfDec<f32, 23, 77> random stream cut two ways (empty, 2-item and maximal blocks), in place vs separate".into());
+}
+
+/// impulse response of the interpolating cascade (high rate) via the implementation
+fn int_impulse(depth: usize) -> Vec<f32> {
+    let mut h = HbfIntCascade::default();
+    h.set_depth(depth);
+    let k = 1usize << depth;
+    let r = h.response_length();
+    let nlow = (r + 1 + k - 1) / k + 4;
+    let mut x = vec![0.0f32; nlow * k];
+    x[0] = 1.0;
+    // feed in blocks respecting the maximum
+    let maxlow = h.block_size().1.min(1 << 10) / k;
+    let mut out = vec![];
+    let mut i = 0;
+    let low: Vec<f32> = (0..nlow).map(|j| if j == 0 { 1.0 } else { 0.0 }).collect();
+    while i < nlow {
+        let b = maxlow.min(nlow - i).max(1);
+        let mut y = vec![0f32; b * k];
+        y[..b].copy_from_slice(&low[i..i + b]);
+        out.extend_from_slice(h.process_block(None, &mut y));
+        i += b;
+    }
+    out
+}
+
+/// impulse response of the decimating cascade (high rate), assembled from all input phases
+fn dec_impulse(depth: usize, len: usize) -> Vec<f32> {
+    let k = 1usize << depth;
+    let nout = len / k + 6;
+    let mut hfull = vec![0f32; nout * k];
+    for p in 0..k {
+        let mut h = HbfDecCascade::default();
+        h.set_depth(depth);
+        let mut y = vec![0f32; nout * k];
+        y[p] = 1.0;
+        let maxb = h.block_size().1.min(1 << 10);
+        let mut out = vec![];
+        let mut i = 0;
+        while i < y.len() {
+            let b = maxb.min(y.len() - i);
+            let mut blk = y[i..i + b].to_vec();
+            out.extend_from_slice(h.process_block(None, &mut blk));
+            i += b;
+        }
+        // every stage's output i sits at input time 2i+1, so cascade output m sits at high-rate time m*k + (k-1):
+        // out[m] = h[m*k + k - 1 - p]
+        for (m, v) in out.iter().enumerate() {
+            let j = m * k + k - 1 - p;
+            if j < hfull.len() {
+                hfull[j] = *v;
+            }
+        }
+    }
+    hfull
+}
+
+fn response_db(h: &[f64], f: f64) -> f64 {
+    // f in cycles per (high-rate) sample
+    let (mut re, mut im) = (0f64, 0f64);
+    for (n, v) in h.iter().enumerate() {
+        let ph = -2.0 * std::f64::consts::PI * f * n as f64;
+        re += v * ph.cos();
+        im += v * ph.sin();
+    }
+    10.0 * (re * re + im * im).log10()
+}
+
+fn c15(rng: &mut Rng, thorough: bool, _hints: &[Vec<String>], rep: &mut Report) {
+    // --- stage = symmetric FIR (to float rounding), arbitrary streams
+    macro_rules! fir_stage {
+        ($taps:expr, $m:expr) => {{
+            const M: usize = $m;
+            const N: usize = 2 * M - 1 + 64;
+            let taps: &[f32; M] = $taps;
+            let mut full = vec![0f64; 4 * M - 1];
+            for (i, t) in taps.iter().enumerate() {
+                full[2 * i] = *t as f64;
+                full[4 * M - 2 - 2 * i] = *t as f64;
+            }
+            full[2 * M - 1] = 1.0;
+            let x = crate::gen::f32_stream(rng, 128);
+            let scale: f64 = x.iter().map(|v| v.abs() as f64).fold(1e-30, f64::max);
+            let conv = |sig: &[f64], t: i64| -> f64 { full.iter().enumerate().map(|(j, c)| { let i = t - j as i64; if i >= 0 && (i as usize) < sig.len() { c * sig[i as usize] } else { 0.0 } }).sum() };
+            // decimator
+            let mut d = HbfDec::<f32, M, N>::new(taps);
+            let mut y = x.clone();
+            let yd = d.process_block(None, &mut y).to_vec();
+            let xs: Vec<f64> = x.iter().map(|v| *v as f64).collect();
+            for (i, v) in yd.iter().enumerate() {
+                let want = 0.5 * conv(&xs, 2 * i as i64 + 1);
+                if (*v as f64 - want).abs() > 2e-6 * scale {
+                    rep.violation("hbf-fir", "stage output = symmetric FIR (halved, decimated by two)", &format!("HbfDec<f32, {}, {}> output {}", M, N, i), &want.to_string(), &v.to_string());
+                    break;
+                }
+            }
+            // interpolator
+            let mut it = HbfInt::<f32, M, N>::new(taps);
+            let mut y = vec![0f32; 128];
+            y[..64].copy_from_slice(&x[..64]);
+            let yi = it.process_block(None, &mut y).to_vec();
+            let mut stuffed = vec![0f64; 128];
+            for i in 0..64 { stuffed[2 * i] = x[i] as f64; }
+            for (m, v) in yi.iter().enumerate() {
+                let want = conv(&stuffed, m as i64);
+                if (*v as f64 - want).abs() > 2e-6 * scale {
+                    rep.violation("hbf-fir", "stage output = symmetric FIR applied to the zero-stuffed input", &format!("HbfInt<f32, {}, {}> output {}", M, N, m), &want.to_string(), &v.to_string());
+                    break;
+                }
+            }
+            rep.count("hbf-fir-stage-outputs", (yd.len() + yi.len()) as u64);
+            rep.distinct += 2;
+        }};
+    }
+    let reps = if thorough { 200 } else { 20 };
+    for _ in 0..reps {
+        fir_stage!(&HBF_TAPS.0, 23);
+        fir_stage!(&HBF_TAPS.1, 9);
+        fir_stage!(&HBF_TAPS.2, 5);
+        fir_stage!(&HBF_TAPS.3, 4);
+        fir_stage!(&HBF_TAPS.4, 3);
+        fir_stage!(&HBF_TAPS_98.0, 15);
+        fir_stage!(&HBF_TAPS_98.1, 6);
+        fir_stage!(&HBF_TAPS_98.2, 3);
+        fir_stage!(&HBF_TAPS_98.3, 3);
+        fir_stage!(&HBF_TAPS_98.4, 2);
+    }
+    // --- cascades: impulse response spec
+    let grid = if thorough { 1 << 15 } else { 1 << 12 };
+    for depth in 1..=4usize {
+        let mut hc = HbfIntCascade::default();
+        hc.set_depth(depth);
+        let r = hc.response_length();
+        let k = 1usize << depth;
+        for dir in 0..2 {
+            let h: Vec<f32> = if dir == 0 { int_impulse(depth) } else { dec_impulse(depth, r + 1) };
+            let name = if dir == 0 { "HbfIntCascade" } else { "HbfDecCascade" };
+            let inp = format!("{} depth {} impulse response (response_length {})", name, depth, r);
+            // spans exactly r + 1 samples; zero afterwards
+            let first_nz = h.iter().position(|v| *v != 0.0);
+            let last_nz = h.iter().rposition(|v| *v != 0.0);
+            if first_nz != Some(0) || last_nz != Some(r) {
+                rep.violation("hbf-span", "impulse response spans exactly response_length()+1 high-rate samples, exactly zero afterwards", &inp, &format!("[0, {}]", r), &format!("{:?}..{:?}", first_nz, last_nz));
+            }
+            // exactly symmetric
+            let sym = (0..=r).all(|i| h[i].to_bits() == h[r - i].to_bits() || (h[i] == h[r - i]));
+            if !sym {
+                let bad = (0..=r).find(|&i| h[i] != h[r - i]);
+                rep.violation("hbf-symmetry", "impulse response exactly symmetric (linear phase)", &inp, "h[i] == h[r-i]", &format!("first asymmetric index {:?}", bad));
+            }
+            // DC gain, ripple, attenuation (f relative to the LOW rate: high-rate frequency = f / 2^depth)
+            let norm = if dir == 0 { k as f64 } else { 1.0 };
+            let hd: Vec<f64> = h[..=r.min(h.len() - 1)].iter().map(|v| *v as f64 / norm).collect();
+            let dc: f64 = hd.iter().sum();
+            rep.stat_max("hbf_dc_err", (dc - 1.0).abs());
+            if (dc - 1.0).abs() > 1e-6 {
+                rep.violation("hbf-dc", "unity DC gain", &inp, "1", &dc.to_string());
+            }
+            let mut ripple = 0f64;
+            let mut stop = -400f64;
+            for gi in 0..=grid {
+                let f_low = gi as f64 / grid as f64 * (k as f64 / 2.0); // 0 .. high-rate Nyquist in units of the low rate
+                let db = response_db(&hd, f_low / k as f64);
+                if f_low <= 0.4 {
+                    ripple = ripple.max(db.abs());
+                } else if f_low >= 0.6 {
+                    stop = stop.max(db);
+                }
+            }
+            rep.stat_max("hbf_passband_ripple_db", ripple);
+            rep.stat_max("hbf_stopband_db", stop);
+            if ripple > 3e-6 {
+                rep.violation("hbf-ripple", "at most 3e-6 dB ripple up to 0.4 of the low sample rate", &inp, "<= 3e-6 dB", &ripple.to_string());
+            }
+            if stop > -138.0 {
+                rep.violation("hbf-stopband", "at least 138 dB attenuation beyond 0.6 of the low sample rate", &inp, "<= -138 dB", &stop.to_string());
+            }
+            rep.count("hbf-cascade-response-grid-points", grid as u64 + 1);
+            rep.distinct += 1;
+        }
+        // zero after response_length further outputs of zero input, from a random state (decimator)
+        let mut d = HbfDecCascade::default();
+        d.set_depth(depth);
+        let blk = d.block_size().1.min(1 << 10);
+        let mut y: Vec<f32> = crate::gen::f32_stream(rng, blk);
+        d.process_block(None, &mut y);
+        let mut zo = vec![];
+        for _ in 0..((1 << 11) / blk).max(1) {
+            let mut z = vec![0.0f32; blk];
+            zo.extend_from_slice(d.process_block(None, &mut z));
+        }
+        let n = d.response_length();
+        if zo[n..].iter().any(|v| *v != 0.0) {
+            rep.violation("hbf-zero-after", "after response_length() outputs of zero input every output is exactly zero", &format!("HbfDecCascade depth {}", depth), "all zero", "non-zero");
+        }
+    }
+    rep.sample("HbfIntCascade depth 4 impulse response: 907 samples, symmetric".into());
 }
